@@ -5,6 +5,7 @@ interesting regions (boundaries of the rule, single mutations of accepted cells)
 """
 import calendar
 import keyword
+import unicodedata
 from decimal import Decimal
 
 from hypothesis import strategies as st
@@ -247,7 +248,8 @@ def _dec_cells(draw, field, fmt, n):
 
 
 _WORDS = ["red", "green", "blue", "Red", "RED", "a", "b", "ab", "abc", "x1", "_y", "änderung", "Ä", "no", "yes"]
-_QUOTED = ["two words", "with, comma", "ünï cödé", "semi;colon", "a", "1st", "-", "#", "tab\there", "x y z", "it's"]
+_QUOTED = ["two words", "with, comma", "ünï cödé", "semi;colon", "a", "1st", "-", "#", "tab\there", "x y z", "it's",
+           "cafe\u0301", "\u212a"]  # a decomposed accent and the Kelvin sign: equal to "café" / "K" only after normalisation
 _NUMBERS = ["1", "2", "10", "42", "1.5", "0"]
 
 
@@ -284,7 +286,16 @@ def choice_fields(draw, name, fmt):
 def _mutate_text(draw, text, alphabet):
     if not text:
         return draw(st.sampled_from(alphabet))
-    kind = draw(st.sampled_from(["delete", "insert", "replace", "swapcase", "append"]))
+    kind = draw(st.sampled_from(["delete", "insert", "replace", "swapcase", "append", "unicode-variant"]))
+    if kind == "unicode-variant":
+        # a different code point sequence that is canonically or compatibility equivalent to the text
+        variants = [v for v in (unicodedata.normalize(form, text) for form in ("NFD", "NFC", "NFKC")) if v != text]
+        for plain, twin in (("K", "\u212a"), ("k", "\uff4b"), ("a", "\uff41"), ("A", "\u0391"), ("1", "\uff11")):
+            if plain in text:
+                variants.append(text.replace(plain, twin, 1))
+        if variants:
+            return draw(st.sampled_from(variants))
+        kind = "swapcase"
     pos = draw(st.integers(0, len(text) - 1))
     ch = draw(st.sampled_from(alphabet))
     if kind == "delete":
@@ -485,9 +496,9 @@ def _instance_of_glob(draw, tokens):
         if tok["t"] == "lit":
             out += draw(st.sampled_from([tok["c"], tok["c"].swapcase()]))
         elif tok["t"] == "any":
-            out += draw(st.sampled_from(_GLOB_ALPHA))
+            out += draw(st.sampled_from(_GLOB_ALPHA + model_fields.EXOTIC_CASE_CHARS))
         elif tok["t"] == "star":
-            out += draw(st.text(_GLOB_ALPHA, max_size=3))
+            out += draw(st.text(_GLOB_ALPHA + model_fields.EXOTIC_CASE_CHARS, max_size=3))
         else:
             lo, hi = draw(st.sampled_from(tok["items"]))
             out += draw(st.sampled_from([lo, hi, lo.swapcase()]))
